@@ -46,6 +46,34 @@ def self_field_writes(body, state_ty):
     return out
 
 
+REVIEWED_STATE_FIELDS = {"format": "shared reference to the immutable format table", "env": "the input as chars (replaced by reset_to)",
+                         "len_env": "env.len() (coupled, P-COUPLE)", "head": "the cursor (reset by reset_to)",
+                         "mid_result": "the five optional item slots (cleared by reset_to)"}
+
+
+def rule_S_FIELDS(ctx):
+    """every field of the enum ParseState is reviewed: a new field (cache, buffer, memo) is new state that can carry information from one
+    token / input to the next and that none of the token-level rules models"""
+    f = ctx.facts
+    ctx.rule("S-FIELDS", "the enum ParseState consists of exactly the reviewed fields (format, env, len_env, head, mid_result); the lexical ParseState "
+             "of `format` only: any further field is parser state whose effect on later tokens / inputs has not been reviewed")
+    adt = f.adts.get(ENUM_STATE)
+    if adt is None:
+        raise AnchorMissing("enum ParseState")
+    fields = [x["name"] for x in adt["variants"][0]["fields"]]
+    for fld in fields:
+        ctx.ob("S-FIELDS", "enum ParseState.%s is a reviewed field" % fld, fld in REVIEWED_STATE_FIELDS,
+               "new parser state: reviewed fields are %s" % sorted(REVIEWED_STATE_FIELDS))
+    ctx.ob("S-FIELDS", "enum ParseState has all reviewed fields", set(REVIEWED_STATE_FIELDS) <= set(fields), "%s" % fields)
+    lex = [a for p, a in f.adts.items() if p.endswith("impl_lexical::parser::structs::ParseState")]
+    if len(lex) == 1:
+        lf = [x["name"] for x in lex[0]["variants"][0]["fields"]]
+        ctx.ob("S-FIELDS", "lexical ParseState holds only `format`", lf == ["format"], "%s" % lf)
+    # no thread_local / static caches in the parser modules (a cache keyed by address or name is state too)
+    tl = sorted(p for p, g_ in f.globals.items() if ("impl_enum::parser" in p or "impl_lexical::parser" in p) and g_.get("kind") in ("static", "thread_local"))
+    ctx.ob("S-FIELDS", "no statics / thread-locals in the parser modules", not tl, "%s" % tl[:4])
+
+
 def run(ctx):
     f = ctx.facts
     cg = mir.callgraph(f)
@@ -162,6 +190,7 @@ def run(ctx):
             ok_align, why = False, "the returned vector is not the one results are pushed to"
     ctx.ob("S-ALIGN", "parse_multi: one pushed result per input", ok_align, why, "%s:%s" % (pm["span"]["file"], pm["span"]["line"]))
 
+    rule_S_FIELDS(ctx)
     # ---------------- S-SIBLING: the reused state after reset_to(input, head) equals the fresh state from_env(format, _build_env(input), head)
     ctx.rule("S-SIBLING", "reset_to establishes field by field what the fresh route establishes: env := _build_env(input) (the only str -> env "
              "conversion), len_env := env.len() of that value (P-COUPLE; from_env couples the same way, S-FRESH), head := the head argument, "
